@@ -611,4 +611,5 @@ package gorm
 //@ site condition-lists-written-in-own-arrays
 //@   match storeelem clause.Expression
 //@   in gorm.(*Statement).BuildCondition
+//@   min-sites 0
 //@   assert array-allocated-by-this-call: fresh(recv) [C06]
